@@ -327,6 +327,40 @@ def _task_families(thorough):
         fam.append(('siblings-in-variant:' + unit, raw_message(
             'v', bytes([len(unit) * 20]) + (unit * 20).encode() + b'\0'
             + b'\0' * 512)))
+    # self-referential lengths: string length words with the top bit set
+    # (negative if read as signed) chosen so that a decoder that steps
+    # backwards lands on earlier words and re-decodes them as array lengths
+    def back_reference_body(m, little=True):
+        e = '<' if little else '>'
+        A = 4 + 4 * m
+        S = (A + 4 + 7) & ~7
+        first, second = [], b''
+        for i in range(m):
+            O = S + 8 * i
+            H = 4 + 4 * i
+            first.append(O + 8 - H - 4)
+            second += struct.pack(e + 'I', (H - O - 5) & 0xFFFFFFFF) \
+                + b'\0\0\0\0'
+        body = struct.pack(e + 'I', 4 * m) + b''.join(
+            struct.pack(e + 'I', w) for w in first)
+        body += struct.pack(e + 'I', 8 * m)
+        body += b'\0' * (S - len(body))
+        return body + second
+    for m in (8, 50, 400):
+        for sig in ('aua(sau)', 'aua(oau)', 'aua(say)', 'aua{sau}'):
+            for little in (True, False):
+                fam.append(('back-reference:' + sig, raw_message(
+                    sig, back_reference_body(m, little), little=little)))
+    for neg in (2**32 - 1, 2**32 - 5, 2**32 - 8, 2**32 - 13, 2**31,
+                2**31 + 9):
+        for sig, tail in (('ss', b'\x01\0\0\0a\0'), ('as', b''),
+                          ('a(su)', b''), ('sas', b'\x08\0\0\0' * 4),
+                          ('a{sv}', b'')):
+            body = struct.pack('<I', 64) if sig[0] == 'a' else b''
+            if sig.startswith('a(') or sig.startswith('a{'):
+                body += b'\0\0\0\0'
+            body += (struct.pack('<I', neg) + b'abcd\0\0\0\0') * 8 + tail
+            fam.append(('negative-length:' + sig, raw_message(sig, body)))
     # lying lengths on large inputs: work must stay proportional
     for size in ((20000,) if not thorough else (20000, 200000)):
         fam.append(('big-ay', raw_message('ay', struct.pack('<I', size)
